@@ -4,6 +4,7 @@ import TapkeeVerif.Proofs.TsneVp
 import TapkeeVerif.Proofs.TsneCsrTotal
 import TapkeeVerif.Proofs.TsneKL
 import TapkeeVerif.Proofs.TsneBisect
+import TapkeeVerif.Proofs.TsneVpBuild
 import TapkeeVerif.Model.TsneRun
 import TapkeeVerif.Proofs.QuadTreeForces
 /-!
@@ -233,6 +234,39 @@ theorem bh_neighbours_true {K : Type} [Field K] [LinearOrder K] [IsStrictOrdered
     Knn.IsKNearest (posDist distf items) q (toTree t).points (Kn + 1)
       ((vpSearch distf items (items q) (Kn + 1) t ⟨none, []⟩).heap.map (·.1)) :=
   vpSearch_nearest distf items hm hd t hT hnd (Kn + 1) (by omega) hkN q
+
+/-- **the build establishes the hypotheses of `bh_neighbours_true`**: for every distance function, every vantage
+    stream `pick` and every item list, the model of `buildFromPoints` (`nth_element` modelled by a stable sort of the
+    tail — one admissible outcome; the real one is checked against the same contract on every dumped tree) returns a
+    reordering of the items and a tree over the positions `0 … N-1`, each exactly once, with the ball invariant for
+    the distances between the reordered items -/
+theorem vptree_build_inv {K : Type} [Field K] [LinearOrder K] [IsStrictOrderedRing K]
+    (distf : List K → List K → K) (pick : Nat → Nat → Nat) (seg : List (Nat × List K)) :
+    (vpBuild distf pick seg.length 0 0 seg).2.1.Perm seg ∧
+    (toTree (vpBuild distf pick seg.length 0 0 seg).1).points.Perm (List.range seg.length) ∧
+    (toTree (vpBuild distf pick seg.length 0 0 seg).1).points.Nodup ∧
+    VpTree.TInv (posDist distf fun p => (((vpBuild distf pick seg.length 0 0 seg).2.1[p]?).map (·.2)).getD [])
+      (toTree (vpBuild distf pick seg.length 0 0 seg).1) := by
+  have ok := vpBuild_ok distf pick seg.length 0 0 seg (Nat.le_refl _)
+  have hp : (toTree (vpBuild distf pick seg.length 0 0 seg).1).points.Perm (List.range seg.length) := by
+    rw [List.range_eq_range']; exact ok.points
+  refine ⟨ok.perm, hp, hp.nodup_iff.2 List.nodup_range, ok.inv _ ?_⟩
+  intro j hj
+  simp [List.getElem?_eq_getElem hj]
+
+/-- … hence the `K + 1` search on the built tree returns `K + 1` nearest items, for every metric, vantage stream and
+    item list (the chain "true neighbours" without a hypothesis on the tree) -/
+theorem bh_neighbours_of_build {K : Type} [Field K] [LinearOrder K] [IsStrictOrderedRing K]
+    (distf : List K → List K → K) (pick : Nat → Nat → Nat) (seg : List (Nat × List K))
+    (hm : VpTree.IsMetric (posDist distf fun p => (((vpBuild distf pick seg.length 0 0 seg).2.1[p]?).map (·.2)).getD []))
+    (hd : ∀ a b, 0 ≤ distf a b) (Kn : Nat) (hkN : Kn + 1 ≤ seg.length) (q : Nat) :
+    Knn.IsKNearest (posDist distf fun p => (((vpBuild distf pick seg.length 0 0 seg).2.1[p]?).map (·.2)).getD []) q
+      (toTree (vpBuild distf pick seg.length 0 0 seg).1).points (Kn + 1)
+      ((vpSearch distf (fun p => (((vpBuild distf pick seg.length 0 0 seg).2.1[p]?).map (·.2)).getD [])
+        ((fun p => (((vpBuild distf pick seg.length 0 0 seg).2.1[p]?).map (·.2)).getD []) q) (Kn + 1)
+        (vpBuild distf pick seg.length 0 0 seg).1 ⟨none, []⟩).heap.map (·.1)) := by
+  obtain ⟨-, hp, hnd, hT⟩ := vptree_build_inv distf pick seg
+  exact bh_neighbours_true distf _ hm hd _ hT hnd Kn (by rw [hp.length_eq, List.length_range]; exact hkN) q
 
 /-! non-vacuity: two items on a line under `|a − b|` -/
 def dist1 (a b : List Rat) : Rat := |a.headD 0 - b.headD 0|
